@@ -25,6 +25,22 @@ func init() {
 	testhack()
 }
 
+// interfaceEqual is a == b for operand values, except that values of an uncomparable
+// dynamic type (slices, maps, funcs) are reported as not equal instead of panicking.
+func interfaceEqual(a, b interface{}) bool {
+	if a == nil || b == nil {
+		return a == b
+	}
+	ta := reflect.TypeOf(a)
+	if ta != reflect.TypeOf(b) {
+		return false
+	}
+	if !ta.Comparable() {
+		return false
+	}
+	return a == b
+}
+
 func dereferenceValue(v reflect.Value) reflect.Value {
 	for v.Kind() == reflect.Ptr || v.Kind() == reflect.Interface {
 		v = v.Elem()
